@@ -32,9 +32,9 @@ def run(tier, seed):
         nruns += meta["events"]
     check.coverage["rule"] = ("table = %d hand-written degenerate schemas alone and united with a seeded sample of the pairwise universe, x %d instances "
                               "(every JSON kind, extreme numbers, depth-30 nesting); random = seeded random schemas with defaults and degenerate instances. Each pair is run "
-                              "through AgainstSchema and NewSchemaValidator(...).Validate x {float64, json.Number} x 16 option combinations under a 5 s watchdog (evaluations = runs). "
+                              "through AgainstSchema and NewSchemaValidator(...).Validate x {float64, json.Number} x 16 option combinations under a 30 s watchdog (evaluations = runs). "
                               "TLC checks the total-outcome clause on every event (Trace_Total). distinct = distinct (schema, instance) texts; all are counted non-trivial "
                               "because every one is degenerate or random by construction." % (0, 0)).replace("0 hand-written", "the hand-written").replace("x 0 instances", "x the instance table")
     check.coverage["pairs"] = nruns
-    check.assumptions = ["termination is observed with a 5 s watchdog, not proved", "schemas that do not decode into spec.Schema are outside the property and skipped"]
+    check.assumptions = ["termination is observed with a 30 s watchdog, not proved", "schemas that do not decode into spec.Schema are outside the property and skipped"]
     return check.finish()
